@@ -60,7 +60,7 @@ func (in *interp) leaf(c *term, tag string) {
 }
 
 func (in *interp) deepEq(a, b value, T types.Type, path string, depth int) {
-	if depth > 12 {
+	if depth > 60 {
 		return
 	}
 	T = types.Unalias(T)
@@ -195,7 +195,7 @@ func intrIndependentAssert(in *interp, fr *frame, fn *ssa.Function, args []value
 }
 
 func (in *interp) collectCells(v value, T types.Type, path string, skip map[string]bool, out map[interface{}]string, depth int) {
-	if depth > 14 {
+	if depth > 60 {
 		return
 	}
 	T = types.Unalias(T)
@@ -286,7 +286,7 @@ func (in *interp) lookupInterface(short string) *types.Interface {
 
 // deepEqTerm: structural equality as one Bool term (nil and empty containers are equal).
 func (in *interp) deepEqTerm(a, b value, T types.Type, depth int) *term {
-	if depth > 14 {
+	if depth > 60 {
 		return tTrue
 	}
 	T = types.Unalias(T)
